@@ -18,8 +18,148 @@ from harness.treetrace import TreeTrace, ir_shape
 PROP = "C04"
 
 
+def _api_parse(args):
+    """worker: Fandango.parse (the public API: grammar + constraints) on each word; -> {word: [tree IR]}"""
+    from harness.fan import make, quiet, tree_ir
+    from harness.parsepipe import with_timeout, Timeout
+    spec, words = args
+    quiet()
+    try:
+        f = make(spec)
+    except Exception as e:  # noqa
+        return {"__reader__": "%s: %s" % (type(e).__name__, str(e)[:100])}
+    out = {}
+    for w in words:
+        def go():
+            ts = []
+            for t in f.parse(w):
+                ts.append(tree_ir(t))
+                if len(ts) >= 5:
+                    break
+            return ts
+        try:
+            out[w] = with_timeout(go, 10.0)
+        except Timeout:
+            f = make(spec)
+        except Exception:  # noqa  (raising is a rejection)
+            out[w] = []
+    return out
+
+
+def computed_specs():
+    """records with a count field: exact form body{int(<len>)} and two-sided form body{1,int(<len>)}, one or two records,
+    and a count that follows an optional digit (two readings of the same prefix)"""
+    from harness import gen
+    L = gen.lit_text
+    base = {"<len>": gen.alt(L("1"), L("2"), L("3")), "<item>": gen.alt(L("p"), L("q"))}
+    out = []
+    for kind, lo in (("", 1), ("upto", 1), ("upto", 0)):
+        for body in (gen.nt("<item>"), gen.cat(gen.nt("<item>"), L(","))):
+            rec = gen.cat(gen.nt("<len>"), L(":"), gen.rep(body, lo, gen.INF, ref="<len>", kind=kind), L("."))
+            for start in (gen.nt("<rec>"), gen.rep(gen.nt("<rec>"), 1, 2), gen.cat(gen.rep(gen.nt("<len>"), 0, 1), gen.nt("<rec>"))):
+                out.append({"start": "<start>", "rules": dict(base, **{"<start>": start, "<rec>": rec}), "flavour": "text", "computed": 1})
+    return out
+
+
+def computed_words(g):
+    """every record text with count digit 1..3 and 0..4 items (so: too few, exact, too many), alone, doubled, and after a digit"""
+    comma = "," if any(x["k"] == "lit" and x["v"] == [44] for r in [g["rules"]["<rec>"]] for y in r["xs"] for x in ([y] + y["xs"] + [z for q in y["xs"] for z in q["xs"]])) else ""
+    recs = []
+    for n in "123":
+        for k in range(0, 5):
+            for it in ("p", "q"):
+                recs.append(n + ":" + (it + comma) * k + ".")
+    words = set(recs)
+    for a in recs[::3]:
+        for b in recs[::4]:
+            words.add(a + b)
+        words.add("2" + a)
+        words.add("1" + a)
+    return sorted(words)
+
+
+def api_level(rep, tier, seed):
+    """Through the public API only trees that satisfy ALL constraints of the spec are yielded - where-clauses and the
+    bounds of computed repetitions alike.  (a) generated where-clauses over TLC-enumerated words: every yielded tree is
+    judged by Constraint.Sat; (b) computed repetitions: every yielded tree is judged by FanIR.Valid with the counts."""
+    import os
+    from harness import gen
+    from harness.cgen import CGen
+    from harness.checks.c07 import grammars
+    from harness.common import run_tlc, subdir, pmap
+    from harness.langenum import enumerate_languages
+    from harness.treetrace import ir_text
+    rnd = random.Random(seed + 77)
+    gs, lits, nts = grammars()
+    enum = enumerate_languages(rep, gs, 6, max_nodes=40, label="Lang(constraint grammars)")
+    jobs, plan = [], []
+    for k in range(24 if tier == "quick" else 400):
+        gid = rnd.choice(sorted(gs))
+        cg = CGen(rnd, nts[gid], lits[gid])
+        cons = [cg.rphi(1) for _ in range(rnd.randint(1, 2))]
+        spec = gen.render(gs[gid], ["where " + c[1] for c in cons])
+        words = sorted(w for w in enum[gid].words if isinstance(w, str))
+        words = rnd.sample(words, min(len(words), 40))
+        jobs.append((spec, words))
+        plan.append((spec, cons))
+    results = pmap(_api_parse, jobs)
+    path = os.path.join(subdir("c04"), "api.ndjson")
+    meta = {}
+    tid = nrej = 0
+    with open(path, "w") as fh:
+        for (spec, cons), res in zip(plan, results):
+            if "__reader__" in res:
+                nrej += 1
+                continue
+            for w, trees in res.items():
+                for t in trees:
+                    tid += 1
+                    meta[tid] = (spec, [c[1] for c in cons], w, t)
+                    fh.write(json.dumps({"ev": "E", "tid": tid, "idx": 0, "phis": [c[0] for c in cons], "tree": t}) + "\n")
+    if tid < 100:
+        raise common.Machinery("the API yielded only %d trees on the constraint specs (vacuous)" % tid)
+    r = run_tlc("Trace_Constraint", "Trace_Constraint", workers=1, env={"TRACE_FILE": path}, timeout=3000, heap="8g")
+    rep.tlc(r, "Trace_Constraint(API parse)")
+    cl = [l for l in r.out.splitlines() if l.startswith('<<"CONSUMED"')]
+    if not cl or ("%d," % tid) not in cl[0]:
+        raise common.Machinery("Trace_Constraint did not consume the API trace: %s" % cl)
+    bad = r.printed("BAD")
+    for b in (bad[0] if bad else []):
+        spec, texts, w, t = meta[b["tid"]]
+        rep.violation("api:%s:%r:%s" % (spec, w, texts[b["k"] - 1]), "Fandango.parse(%r) with\n%syields a tree that does not satisfy `%s`" % (w, spec, texts[b["k"] - 1]),
+                      {"spec": spec, "word": w, "tree": t})
+    # (b) computed repetitions
+    tt = TreeTrace("c04api")
+    cjobs, cplan = [], []
+    for i, g in enumerate(computed_specs()):
+        words = computed_words(g)
+        if tier == "quick":
+            words = rnd.sample(words, min(len(words), 60))
+        cjobs.append((gen.render(g), words))
+        cplan.append((700 + i, g))
+    ntrees = nwords = 0
+    for (gid, g), res in zip(cplan, pmap(_api_parse, cjobs)):
+        if "__reader__" in res:
+            raise common.Machinery("computed-repetition spec rejected by the reader: %s\n%s" % (res["__reader__"], gen.render(g)))
+        tt.grammar(gid, g)
+        tt.new_trace({"spec": gen.render(g), "gid": gid})
+        for w, trees in res.items():
+            nwords += 1
+            for t in trees:
+                ntrees += 1
+                tt.tree(gid, "<start>", t, repr(w), "text", [ord(c) for c in w])
+    if ntrees < 50:
+        raise common.Machinery("the API yielded only %d trees on the computed-repetition specs (vacuous)" % ntrees)
+    for _tid, _idx, clause, label, ir, info in tt.judge(rep, "Trace_Tree(API parse, computed repetitions)"):
+        rep.violation("api-tree:%s:%s:%s" % (info["spec"], label, clause),
+                      "Fandango.parse(%s) with\n%syields %s: %s" % (label, info["spec"], ir_shape(ir)[:200], clause),
+                      {"spec": info["spec"], "word": label, "tree": ir, "clause": clause})
+    rep.add(api_constraint_trees_judged=tid, api_specs_rejected_by_reader=nrej, api_computed_words=nwords, api_computed_trees_judged=ntrees)
+
+
 def run(tier, seed):
     rep = Report(PROP, tier, seed, "model_checking")
+    api_level(rep, tier, seed)
     ng, mu = (40, 5) if tier == "quick" else (600, 6)
     cases = build_corpus(rep, seed, ng, mu)
     parse_corpus(cases)
